@@ -5,6 +5,7 @@ import (
 	"reflect"
 	"strings"
 	"testing"
+	"time"
 
 	"github.com/antonmedv/expr"
 	"pgregory.net/rapid"
@@ -255,6 +256,9 @@ func TestC01(t *testing.T) {
 		return
 	}
 	defer rec.Flush()
+	// every case is evaluated by the reference first, within 2e6 steps and 6e6 created elements, and is skipped
+	// beyond that; the library needs milliseconds for such a program
+	core.StartWatchdog(rec, 4*time.Minute, "the reference evaluates the same program within 2e6 steps and 6e6 created elements", 8<<30)
 	if !core.RunRapid(t, rec, "random", cfg.N(30000, 600000), func(rt *rapid.T) *core.Case { return genC01(rt, cfg, false) }) {
 		return
 	}
